@@ -5,7 +5,7 @@ from concurrent.futures import ThreadPoolExecutor
 ROOT = os.path.dirname(os.path.dirname(os.path.abspath(__file__)))
 COQ = os.path.join(ROOT, 'coq')
 QFLAGS = ['-Q', 'theories', 'QSC', '-Q', 'gen', 'QSCGen', '-Q', 'gprops', 'QSCGProps', '-Q', 'props', 'QSCProps']
-THEORIES = ['Expr', 'Equiv', 'Dim', 'Sign', 'Shift', 'Shallow', 'Series', 'DiffMat', 'Quadrant', 'Newton', 'Bracket', 'RootSelect', 'ObjModel', 'Effects']
+THEORIES = ['Expr', 'Equiv', 'Dim', 'Sign', 'Shift', 'Replicate', 'Shallow', 'Pipeline', 'Series', 'DiffMat', 'Quadrant', 'Newton', 'Bracket', 'RootSelect', 'ObjModel', 'Effects']
 FORBIDDEN = re.compile(r'\b(Admitted|admit|Axiom|Axioms|Parameter|Parameters|Conjecture|Hypothesis\s|Variable\s)|Unset\s+Guard|bypass_check|type-in-type|impredicative-set|Admit\s+Obligations')
 ALLOWED_AXIOMS = {
     'ClassicalDedekindReals.sig_not_dec', 'ClassicalDedekindReals.sig_forall_dec',
@@ -13,6 +13,12 @@ ALLOWED_AXIOMS = {
     # the same three standard-library axioms, as printed when the declaring module is imported
     'functional_extensionality_dep', 'sig_not_dec', 'sig_forall_dec',
 }
+# Coq's primitive machine floats / integers are reported by Print Assumptions under "Axioms:" although they are kernel primitives, not
+# declared axioms; they only occur in the PrimFloat instances of the hand-written control models (used for the correspondence checks)
+PRIMITIVES = {'float', 'int', 'ltb', 'leb', 'eqb', 'add', 'sub', 'mul', 'div', 'sqrt', 'abs', 'opp', 'of_uint63', 'normfr_mantissa', 'frshiftexp',
+              'ldshiftexp', 'next_up', 'next_down', 'classify', 'compare',
+              'PrimFloat.float', 'PrimFloat.ltb', 'PrimFloat.leb', 'PrimFloat.eqb', 'PrimFloat.add', 'PrimFloat.sub', 'PrimFloat.mul', 'PrimFloat.div',
+              'PrimFloat.sqrt', 'PrimFloat.abs', 'PrimFloat.opp', 'Uint63.int', 'PrimInt63.int'}
 
 
 class Lock:
